@@ -527,47 +527,64 @@ theorem addOffset_eq (sin cos : α → α) (inMat ref m0 m1 m2 : M44 α) (tOffse
 example : |(degToRad : ℝ) * 180 - 3.14159265358979| < 1 / 10 ^ 14 := by
   unfold degToRad; rw [abs_lt]; constructor <;> norm_num
 
-/-- `rotationMatrix (from, to)` = `Quat::setRotation (from, to).toMatrix44 ()`; the 89-path tree of `setRotation` equals the
-documented case analysis `quatSetRotationSpec` (acute: one half-way quaternion; obtuse: product of two; opposite: half-turn) -/
-theorem rotationMatrix_spec (tmin : α) (sqrt : α → α) (fromDir toDir : V3 α) :
-    Gen.Frame.rotationMatrix tmin sqrt fromDir toDir
-      = Gen.Frame.quatToMatrix44 (quatSetRotationSpec (Gen.V3.length tmin sqrt) fromDir toDir) :=
-  rotationMatrix_eq tmin sqrt fromDir toDir
+/-- `rotationMatrix (from, to)` = `Quat::setRotation (from, to).toMatrix44 ()`; for non-zero `from`, `to` the 115-path tree of
+`setRotation` equals the documented case analysis `quatSetRotationSpec` (angle ≤ π/2: one half-way quaternion; larger: product of two;
+`|from^ + to^|² ≤ (8ε)²`, i.e. opposite to within rounding: half-turn about an axis ⟂ `from`).  `teps` is `numeric_limits<T>::epsilon()`. -/
+theorem rotationMatrix_spec (tmin teps : α) (sqrt : α → α) (hlen : LenSpec (Gen.V3.length tmin sqrt)) (fromDir toDir : V3 α)
+    (hf : fromDir ≠ ⟨0, 0, 0⟩) (ht : toDir ≠ ⟨0, 0, 0⟩) :
+    Gen.Frame.rotationMatrix tmin teps sqrt fromDir toDir
+      = Gen.Frame.quatToMatrix44 (quatSetRotationSpec (Gen.V3.length tmin sqrt) teps fromDir toDir) :=
+  rotationMatrix_eq tmin teps sqrt fromDir toDir (len_ne_zero hlen hf) (len_ne_zero hlen ht)
 /-- non-zero directions at an angle ≤ π/2: orthonormal, right-handed, no translation, takes `from^` to `to^` -/
-theorem rotationMatrix_acute (tmin : α) (sqrt : α → α) (hlen : LenSpec (Gen.V3.length tmin sqrt)) (fromDir toDir : V3 α)
+theorem rotationMatrix_acute (tmin teps : α) (sqrt : α → α) (hlen : LenSpec (Gen.V3.length tmin sqrt)) (fromDir toDir : V3 α)
     (hf : fromDir ≠ ⟨0, 0, 0⟩) (ht : toDir ≠ ⟨0, 0, 0⟩)
     (hd : 0 ≤ dot (nrm (Gen.V3.length tmin sqrt) fromDir) (nrm (Gen.V3.length tmin sqrt) toDir)) :
-    IsFrame (Gen.Frame.rotationMatrix tmin sqrt fromDir toDir) ∧ row3 (Gen.Frame.rotationMatrix tmin sqrt fromDir toDir) = ⟨0, 0, 0⟩ ∧
-      (nrm (Gen.V3.length tmin sqrt) fromDir).toVec ᵥ* rot3 (Gen.Frame.rotationMatrix tmin sqrt fromDir toDir)
+    IsFrame (Gen.Frame.rotationMatrix tmin teps sqrt fromDir toDir) ∧ row3 (Gen.Frame.rotationMatrix tmin teps sqrt fromDir toDir) = ⟨0, 0, 0⟩ ∧
+      (nrm (Gen.V3.length tmin sqrt) fromDir).toVec ᵥ* rot3 (Gen.Frame.rotationMatrix tmin teps sqrt fromDir toDir)
         = (nrm (Gen.V3.length tmin sqrt) toDir).toVec := by
-  rw [rotationMatrix_eq]; exact rotationMatrixSpec_acute hlen hf ht hd
+  rw [rotationMatrix_spec tmin teps sqrt hlen fromDir toDir hf ht]; exact rotationMatrixSpec_acute hlen teps hf ht hd
 /-- exactly opposite directions: a half-turn about an axis perpendicular to `from`; takes `from^` to `to^ = −from^` -/
-theorem rotationMatrix_opposite (tmin : α) (sqrt : α → α) (hlen : LenSpec (Gen.V3.length tmin sqrt)) (fromDir toDir : V3 α)
+theorem rotationMatrix_opposite (tmin teps : α) (sqrt : α → α) (hlen : LenSpec (Gen.V3.length tmin sqrt)) (fromDir toDir : V3 α)
     (hf : fromDir ≠ ⟨0, 0, 0⟩) (ht : toDir ≠ ⟨0, 0, 0⟩)
     (hopp : vadd (nrm (Gen.V3.length tmin sqrt) fromDir) (nrm (Gen.V3.length tmin sqrt) toDir) = ⟨0, 0, 0⟩) :
-    IsFrame (Gen.Frame.rotationMatrix tmin sqrt fromDir toDir) ∧ row3 (Gen.Frame.rotationMatrix tmin sqrt fromDir toDir) = ⟨0, 0, 0⟩ ∧
-      (nrm (Gen.V3.length tmin sqrt) fromDir).toVec ᵥ* rot3 (Gen.Frame.rotationMatrix tmin sqrt fromDir toDir)
+    IsFrame (Gen.Frame.rotationMatrix tmin teps sqrt fromDir toDir) ∧ row3 (Gen.Frame.rotationMatrix tmin teps sqrt fromDir toDir) = ⟨0, 0, 0⟩ ∧
+      (nrm (Gen.V3.length tmin sqrt) fromDir).toVec ᵥ* rot3 (Gen.Frame.rotationMatrix tmin teps sqrt fromDir toDir)
         = (nrm (Gen.V3.length tmin sqrt) toDir).toVec := by
-  rw [rotationMatrix_eq]; exact rotationMatrixSpec_opposite hlen hf ht hopp
-/- FULL statement for the remaining case (angle in (π/2, π)): as `rotationMatrix_acute`, i.e. orthonormal right-handed AND
-   `from^ ᵥ* R = to^`.  Proved below: orthonormal, right-handed, affine, no translation (product of two unit quaternions).
-   MISSING: `from^ ᵥ* R = to^` for this branch — it needs `M(q₁q₂) = M(q₂)M(q₁)` together with the fact that the two half rotations
-   share their axis (nested normalisations); it is measured by the residue harness (`rotationMatrix.from->to`). -/
-theorem rotationMatrix_obtuse_partial (tmin : α) (sqrt : α → α) (hlen : LenSpec (Gen.V3.length tmin sqrt)) (fromDir toDir : V3 α)
+  rw [rotationMatrix_spec tmin teps sqrt hlen fromDir toDir hf ht]; exact rotationMatrixSpec_opposite hlen teps hf ht hopp
+/-- opposite to within `|from^ + to^|² ≤ (8ε)²`: still an exact half-turn (orthonormal, right-handed); it takes `from^` to `−from^`,
+which differs from `to^` by at most `8ε` in norm -/
+theorem rotationMatrix_nearOpposite (tmin teps : α) (sqrt : α → α) (hlen : LenSpec (Gen.V3.length tmin sqrt)) (fromDir toDir : V3 α)
     (hf : fromDir ≠ ⟨0, 0, 0⟩) (ht : toDir ≠ ⟨0, 0, 0⟩)
     (hd : dot (nrm (Gen.V3.length tmin sqrt) fromDir) (nrm (Gen.V3.length tmin sqrt) toDir) < 0)
-    (hopp : vadd (nrm (Gen.V3.length tmin sqrt) fromDir) (nrm (Gen.V3.length tmin sqrt) toDir) ≠ ⟨0, 0, 0⟩) :
-    IsFrame (Gen.Frame.rotationMatrix tmin sqrt fromDir toDir) ∧ row3 (Gen.Frame.rotationMatrix tmin sqrt fromDir toDir) = ⟨0, 0, 0⟩ := by
-  rw [rotationMatrix_eq]; exact rotationMatrixSpec_obtuse hlen hf ht hd hopp
-/-- hence for ALL non-zero `from`, `to` (parallel and opposite included): an orthonormal right-handed frame without translation -/
-theorem rotationMatrix_frame (tmin : α) (sqrt : α → α) (hlen : LenSpec (Gen.V3.length tmin sqrt)) (fromDir toDir : V3 α)
+    (hopp : dot (vadd (nrm (Gen.V3.length tmin sqrt) fromDir) (nrm (Gen.V3.length tmin sqrt) toDir))
+                (vadd (nrm (Gen.V3.length tmin sqrt) fromDir) (nrm (Gen.V3.length tmin sqrt) toDir)) ≤ (8 * teps) * (8 * teps)) :
+    IsFrame (Gen.Frame.rotationMatrix tmin teps sqrt fromDir toDir) ∧ row3 (Gen.Frame.rotationMatrix tmin teps sqrt fromDir toDir) = ⟨0, 0, 0⟩ ∧
+      (nrm (Gen.V3.length tmin sqrt) fromDir).toVec ᵥ* rot3 (Gen.Frame.rotationMatrix tmin teps sqrt fromDir toDir)
+        = (vneg (nrm (Gen.V3.length tmin sqrt) fromDir)).toVec := by
+  rw [rotationMatrix_spec tmin teps sqrt hlen fromDir toDir hf ht]; exact rotationMatrixSpec_nearOpposite hlen teps hf ht hd hopp
+/- FULL statement for the remaining case (angle > π/2, `|from^ + to^|² > (8ε)²`): as `rotationMatrix_acute`, i.e. orthonormal right-handed
+   AND `from^ ᵥ* R = to^`.  Proved below: orthonormal, right-handed, affine, no translation (product of two unit quaternions).
+   MISSING: `from^ ᵥ* R = to^` for this branch — it needs `M(q₁q₂) = M(q₂)M(q₁)` together with the fact that the two half rotations
+   share their axis (nested normalisations); it is measured by the residue harness (`rotationMatrix.from->to`). -/
+theorem rotationMatrix_obtuse_partial (tmin teps : α) (sqrt : α → α) (hlen : LenSpec (Gen.V3.length tmin sqrt)) (fromDir toDir : V3 α)
+    (hf : fromDir ≠ ⟨0, 0, 0⟩) (ht : toDir ≠ ⟨0, 0, 0⟩)
+    (hd : dot (nrm (Gen.V3.length tmin sqrt) fromDir) (nrm (Gen.V3.length tmin sqrt) toDir) < 0)
+    (hbig : (8 * teps) * (8 * teps) < dot (vadd (nrm (Gen.V3.length tmin sqrt) fromDir) (nrm (Gen.V3.length tmin sqrt) toDir))
+                (vadd (nrm (Gen.V3.length tmin sqrt) fromDir) (nrm (Gen.V3.length tmin sqrt) toDir))) :
+    IsFrame (Gen.Frame.rotationMatrix tmin teps sqrt fromDir toDir) ∧ row3 (Gen.Frame.rotationMatrix tmin teps sqrt fromDir toDir) = ⟨0, 0, 0⟩ := by
+  rw [rotationMatrix_spec tmin teps sqrt hlen fromDir toDir hf ht]; exact rotationMatrixSpec_obtuse hlen teps hf ht hd hbig
+/-- hence for ALL non-zero `from`, `to` (parallel, opposite and nearly opposite included) and every `teps`: an orthonormal right-handed
+frame without translation -/
+theorem rotationMatrix_frame (tmin teps : α) (sqrt : α → α) (hlen : LenSpec (Gen.V3.length tmin sqrt)) (fromDir toDir : V3 α)
     (hf : fromDir ≠ ⟨0, 0, 0⟩) (ht : toDir ≠ ⟨0, 0, 0⟩) :
-    IsFrame (Gen.Frame.rotationMatrix tmin sqrt fromDir toDir) ∧ row3 (Gen.Frame.rotationMatrix tmin sqrt fromDir toDir) = ⟨0, 0, 0⟩ := by
+    IsFrame (Gen.Frame.rotationMatrix tmin teps sqrt fromDir toDir) ∧ row3 (Gen.Frame.rotationMatrix tmin teps sqrt fromDir toDir) = ⟨0, 0, 0⟩ := by
   by_cases hd : 0 ≤ dot (nrm (Gen.V3.length tmin sqrt) fromDir) (nrm (Gen.V3.length tmin sqrt) toDir)
-  · exact ⟨(rotationMatrix_acute tmin sqrt hlen fromDir toDir hf ht hd).1, (rotationMatrix_acute tmin sqrt hlen fromDir toDir hf ht hd).2.1⟩
-  · by_cases hopp : vadd (nrm (Gen.V3.length tmin sqrt) fromDir) (nrm (Gen.V3.length tmin sqrt) toDir) = ⟨0, 0, 0⟩
-    · exact ⟨(rotationMatrix_opposite tmin sqrt hlen fromDir toDir hf ht hopp).1, (rotationMatrix_opposite tmin sqrt hlen fromDir toDir hf ht hopp).2.1⟩
-    · exact rotationMatrix_obtuse_partial tmin sqrt hlen fromDir toDir hf ht (not_le.mp hd) hopp
+  · exact ⟨(rotationMatrix_acute tmin teps sqrt hlen fromDir toDir hf ht hd).1, (rotationMatrix_acute tmin teps sqrt hlen fromDir toDir hf ht hd).2.1⟩
+  · by_cases hbig : (8 * teps) * (8 * teps) < dot (vadd (nrm (Gen.V3.length tmin sqrt) fromDir) (nrm (Gen.V3.length tmin sqrt) toDir))
+        (vadd (nrm (Gen.V3.length tmin sqrt) fromDir) (nrm (Gen.V3.length tmin sqrt) toDir))
+    · exact rotationMatrix_obtuse_partial tmin teps sqrt hlen fromDir toDir hf ht (not_le.mp hd) hbig
+    · have h := rotationMatrix_nearOpposite tmin teps sqrt hlen fromDir toDir hf ht (not_le.mp hd) (not_lt.mp hbig)
+      exact ⟨h.1, h.2.1⟩
 example : (⟨1, 0, 0⟩ : V3 ℝ) ≠ ⟨0, 0, 0⟩ ∧ (⟨-3, 1, 0⟩ : V3 ℝ) ≠ ⟨0, 0, 0⟩ := by constructor <;> simp
 
 end Frames
